@@ -55,7 +55,7 @@ func runSolver(ctx context.Context, s solverSpec, file string, timeoutS int) sol
 	case "timeout":
 		r.result = "timeout"
 	default:
-		if c.Err() != nil {
+		if c.Err() != nil || strings.Contains(first, "interrupted by timeout") {
 			r.result = "timeout"
 		} else if err != nil || strings.Contains(txt, "error") {
 			r.result = "error"
